@@ -105,3 +105,7 @@ pub fn quoted_len(e: &Error) -> Option<usize> {
     let len = m[start..].find("\u{1b}[0m")?;
     Some(len)
 }
+
+pub fn plain_str(m: &str) -> String {
+    strip_ansi(m)
+}
